@@ -9,14 +9,25 @@ Tol == 2
 Q(p) == [val |-> p.val, w |-> p.w]
 E(t) == t.scenario.expr
 RowOK(t, c, r) == LET q == Q(r) IN
-                  /\ IF t.scenario.boundary THEN NearBdBox(E(t), q, Tol) ELSE InTol(E(t), q, Tol)
+                  /\ IF t.scenario.boundary THEN NearBdTol(E(t), q, Tol) ELSE InTol(E(t), q, Tol)
                   /\ (c.filter = 1 => q.val[SpaceOf(E(t))[1][1]][1] >= -Tol)
-\* lattice estimate of positive measure at parameter row prm (fine units): >= 6 of 15x15 lattice points inside
+\* lattice estimate of positive measure at parameter row prm (fine units).  2-D sets: >= 12 of the 15x15 lattice points of
+\* the window inside (~5%).  Other spaces (intervals, balls, products): a lattice over all space variables, coarser per axis.
 Lat == {-896 + 128 * i + 7 : i \in 0..14}
+Lat2 == {-896 + 256 * i + 7 : i \in 0..7}
 EnvQ(e, prm, x, y) == [val |-> [n \in FreeVars(e) \cup {"x"} |-> IF n = "x" THEN <<x, y>> ELSE IF n \in DOMAIN prm THEN <<prm[n]>> ELSE <<0>>], w |-> 1]
-\* (with a filter  x[1] >= 0  only the lattice points satisfying it count); 12 of 225 points ~ 5% of the window
-Positive(e, prm, flt) == SpaceOf(e) # <<<<"x", 2>>>>
-                         \/ Cardinality({p \in Lat \X Lat : (flt = 0 \/ p[1] >= 0) /\ In(e, EnvQ(e, prm, p[1], p[2]))}) >= 12
+VarLat(dim, L) == IF dim = 1 THEN {<<a>> : a \in L} ELSE IF dim = 2 THEN {<<a, b>> : a \in L, b \in L} ELSE {<<a, b, c>> : a \in Lat2, b \in Lat2, c \in Lat2}
+\* all lattice assignments of the space variables of e (one variable: fine lattice; several: the coarse one per variable)
+LatPoints(e) == LET sp == SpaceOf(e)  L == IF Len(sp) = 1 THEN Lat ELSE Lat2
+                IN {f \in [{sp[i][1] : i \in DOMAIN sp} -> UNION {VarLat(sp[i][2], L) : i \in DOMAIN sp}] : \A i \in DOMAIN sp : f[sp[i][1]] \in VarLat(sp[i][2], L)}
+EnvG(e, prm, f) == [val |-> [n \in FreeVars(e) \cup DOMAIN f |-> IF n \in DOMAIN f THEN f[n] ELSE IF n \in DOMAIN prm THEN <<prm[n]>> ELSE <<0>>], w |-> 1]
+MinInside(e) == LET sp == SpaceOf(e) IN IF Len(sp) = 1 /\ sp[1][2] = 1 THEN 2 ELSE IF Len(sp) = 1 /\ sp[1][2] = 3 THEN 8 ELSE 12
+\* enough of the set, and (flt = 1: the filter  first coordinate of the first variable >= 0) at least a tenth of it passes the filter
+Positive(e, prm, flt) ==
+    IF SpaceOf(e) = <<<<"x", 2>>>> THEN Cardinality({p \in Lat \X Lat : (flt = 0 \/ p[1] >= 0) /\ In(e, EnvQ(e, prm, p[1], p[2]))}) >= 12
+    ELSE LET ins == {f \in LatPoints(e) : In(e, EnvG(e, prm, f))}
+             ok == {f \in ins : f[SpaceOf(e)[1][1]][1] >= 0}
+         IN Cardinality(ins) >= MinInside(e) /\ (flt = 0 \/ (Cardinality(ok) >= 2 /\ Cardinality(ok) * 10 >= Cardinality(ins)))
 RECURSIVE HasNode(_, _)
 HasNode(e, kind) == e.k = kind \/ (e.k \in {"union", "cut", "and", "prod"} /\ (HasNode(e.l, kind) \/ HasNode(e.r, kind)))
                     \/ (e.k \in {"trans", "rot", "bd"} /\ HasNode(e.d, kind))
@@ -42,13 +53,27 @@ EmptyOperand(e, prm) ==
     CASE e.k \in {"union", "cut", "and"} -> ~Positive(e.l, prm, 0) \/ ~Positive(e.r, prm, 0) \/ EmptyOperand(e.l, prm) \/ EmptyOperand(e.r, prm)
       [] e.k \in {"trans", "rot"} -> EmptyOperand(e.d, prm)
       [] OTHER -> FALSE
+\* "bool_empty_operand": INTERIOR sampling of a Boolean combination samples every operand for every parameter row (union:
+\* n points of A and of B, then a choice; cut / intersection: rejection from A); an operand (or nested operand) that contains
+\* NO point of the 15x15 lattice at a parameter row of the call is never sampled successfully and the call does not return
+NoLattice(e, prm) == SpaceOf(e) = <<<<"x", 2>>>> /\ \A p \in Lat \X Lat : ~In(e, EnvQ(e, prm, p[1], p[2]))
+RECURSIVE EmptyOperand0(_, _)
+EmptyOperand0(e, prm) ==
+    CASE e.k \in {"union", "cut", "and"} -> NoLattice(e.l, prm) \/ NoLattice(e.r, prm) \/ EmptyOperand0(e.l, prm) \/ EmptyOperand0(e.r, prm)
+      [] e.k \in {"trans", "rot"} -> EmptyOperand0(e.d, prm)
+      [] OTHER -> FALSE
+PrmRows(c) == IF c.prm = <<>> THEN {<<>>} ELSE {c.prm[i] : i \in DOMAIN c.prm}       \* a parameter-free call has one (empty) row
 DevOfCall(t, c) ==
     IF c.kind = "s_lhs" /\ c.exc = "IndexError" /\ HasNode(E(t), "trans") THEN "translate_bbox_per_row"
     \* the same per-row box inside a product: ProductDomain.bounding_box concatenates it with the flat box of the other factor
     ELSE IF c.kind = "s_lhs" /\ c.exc = "RuntimeError" /\ E(t).k = "prod" /\ HasNode(E(t), "trans")
             /\ "msg" \in DOMAIN c /\ c.msg = "Tensors must have same number of dimensions: got 1 and 2" THEN "translate_bbox_per_row"
+    \* ... and inside a union / intersection, whose bounding_box compares the entries of the operands' boxes as scalars
+    ELSE IF c.kind = "s_lhs" /\ c.exc = "RuntimeError" /\ E(t).k \in {"union", "and", "cut"} /\ HasNode(E(t), "trans")
+            /\ "msg" \in DOMAIN c /\ c.msg = "Boolean value of Tensor with more than one value is ambiguous" THEN "translate_bbox_per_row"
     ELSE IF SharedPiece(t, c) THEN "bool_bd_shared_piece"
-    ELSE IF t.scenario.boundary /\ c.exc = "hang" /\ \E i \in DOMAIN c.prm : EmptyOperand(E(t), c.prm[i]) THEN "bool_bd_empty_operand"
+    ELSE IF t.scenario.boundary /\ c.exc = "hang" /\ \E r \in PrmRows(c) : EmptyOperand(E(t), r) THEN "bool_bd_empty_operand"
+    ELSE IF ~t.scenario.boundary /\ c.exc = "hang" /\ \E r \in PrmRows(c) : EmptyOperand0(E(t), r) THEN "bool_empty_operand"
     ELSE ""
 Check(t) ==
     IF "driver_error" \in DOMAIN t THEN <<"driver-error", "", 0>>
